@@ -42,7 +42,9 @@ HAND = [
     ("$[?@.a in _.a]", "objarr", {}), ("$.~", "obj2", {}), ("$[~, 'a']", "obj2", {}), ("$..~", "nest1", {}), ("$.*.~", "nest1", {}),
     ("$[?@.a == undefined]", "objarr", {}), ("$[?@.b != missing]", "objarr", {}), ("$[?@.a <> 1]", "objarr", {}),
     ("$[?@.a contains 1]", "nest2", {}), ("$[?'a' in @]", "nest2", {}), ("$[?@.a == nil || @.a == None]", "objarr", {"leaf": "nbi"}),
-    ("a.b", "nest1", {}), ("$[a, b]", "obj2", {}), ("$.a[0:2:1]", "nest1", {}), ("$.a[::-1]", "nest1", {}), ("$.a[:1]", "nest1", {}),
+    ("a.b", "nest1", {}), ("$[a, b]", "obj2", {}), ("$.a[0:2:1]", "nest1", {}), ("$[0::-1]", "arr", {}), ("$[:0:-1]", "arr", {}), ("$[0:0]", "arr", {}), ("$[::0]", "arr", {}),
+    ("$[?(!(@.a == 1)) == true]", "objarr", {}), ("$[?!((@.a == 1) == (@.b == 2))]", "objarr", {"leaf": "int"}), ("$[?!((!@.a) == true)]", "objarr", {}),
+    ("$[?@.a == 1.0e16]", "objarr", {"strs": [10**16, 1e16, 1, "1e16"]}), ("$.items[?^[0].a == @.b]", "objarr", {}), ("$.a[::-1]", "nest1", {}), ("$.a[:1]", "nest1", {}),
     ("$..[?@.a == 1].b", "deep", {}), ("$[?@.a][?@ == 1]", "nest2", {}), ("$[?@.xs[?@.a == $.k]]", "objarr", {}),
     ("$[?length(@.a) == 1 && count(@.*) > 1]", "objarr", {}), ("$[?value(@..a) == 1]", "nest2", {}),
     ("$[?typeof(@.a) == 'number']", "objarr", {}), ("$[?isinstance(@.a, 'string')]", "objarr", {}),
